@@ -84,10 +84,16 @@ def foldNode : Expr → Action
      | .lit _ => .replace rhs
      | _ => if l == .undef then .keep else .modified (.comma (.lit .undef) rhs))
   | .logical op (.lit l) rhs =>
+    -- a logical expression yields a value, never a reference: a non-literal right-hand side is kept
+    -- behind a comma (`(null ?? o.f)()` must not call with `this = o`)
+    let keepValue (rhs : Expr) : Action :=
+      match rhs with
+      | .lit _ => .replace rhs
+      | _ => .replace (.comma (.lit .undef) rhs)
     (match op with
-     | .and => if S.truthy l then .replace rhs else .replace (.lit l)
-     | .or => if S.truthy l then .replace (.lit l) else .replace rhs
-     | .coalesce => if S.nullish l then .replace rhs else .replace (.lit l))
+     | .and => if S.truthy l then keepValue rhs else .replace (.lit l)
+     | .or => if S.truthy l then .replace (.lit l) else keepValue rhs
+     | .coalesce => if S.nullish l then keepValue rhs else .replace (.lit l))
   | .bin op (.lit a) (.lit b) =>
     (match S.binop op a b with
      | some v => .replace (.lit v)
